@@ -79,6 +79,7 @@ type Env struct {
 	Notes   []string
 	muted   bool
 	closed  bool
+	pollerBusy bool
 }
 
 // Cleanup ends everything still running so that the bubble can exit; nothing is logged any more.
@@ -306,7 +307,12 @@ type fakeTicker struct {
 
 func (f *fakeTicker) Chan() <-chan time.Time { return f.ch }
 func (f *fakeTicker) Stop()                  {}
-func (f *fakeTicker) Done()                  { f.e.Log(Event{"ev": "ret", "call": "refresh", "caller": "poller", "res": "any"}) }
+func (f *fakeTicker) Done() {
+	f.e.Log(Event{"ev": "ret", "call": "refresh", "caller": "poller", "res": "any"})
+	f.e.mu.Lock()
+	f.e.pollerBusy = false
+	f.e.mu.Unlock()
+}
 
 // ---- environment steps ----
 
@@ -354,6 +360,7 @@ func (e *Env) Apply(s Step) bool {
 		cfg := setec.StoreConfig{Client: client{e}, Secrets: append([]string(nil), s.Declared...), AllowLookup: s.AllowLookup,
 			ExpiryAge: time.Duration(s.Expiry) * time.Millisecond, PollInterval: -1, Logf: func(string, ...any) {}}
 		e.closed = false
+		e.pollerBusy = false
 		if restart {
 			// same cache object, everything else as given; the old store is abandoned
 			e.mu.Lock()
@@ -416,7 +423,7 @@ func (e *Env) Apply(s Step) bool {
 		e.mu.Unlock()
 		decl := dedupe(s.Declared)
 		e.Log(Event{"ev": "newstore", "declared": decl, "allowlookup": s.AllowLookup, "expiry": s.Expiry, "auto": s.Auto, "bad": bad,
-			"fileclient": false, "deadline": s.Deadline, "cache": map[string]any{"kind": kind, "doc": doc}})
+			"fileclient": false, "deadline": s.Deadline, "cache": map[string]any{"kind": kind, "doc": doc, "wfail": e.cache != nil && e.cache.wfail}})
 		go func() {
 			var st *setec.Store
 			var err error
@@ -481,12 +488,17 @@ func (e *Env) Apply(s Step) bool {
 		if e.theStore() == nil || e.ticker == nil {
 			return false
 		}
-		select {
-		case e.ticker.ch <- time.Now():
-			e.Log(Event{"ev": "tick"})
-		default:
-			return false // the poller is busy (or gone): no tick can be delivered now
+		e.mu.Lock()
+		busy := e.pollerBusy || e.closed
+		if !busy {
+			e.pollerBusy = true
 		}
+		e.mu.Unlock()
+		if busy {
+			return false // the poller is in a round (or gone): no tick can be delivered now
+		}
+		e.Log(Event{"ev": "tick"})
+		e.ticker.ch <- time.Now() // the poller is waiting for exactly this
 	case "handle":
 		st := e.theStore()
 		if st == nil {
